@@ -71,7 +71,16 @@ def load_plugins(config: 'ConfigService', custom=None) -> List['Plugin']:
         except Exception as e:
             logging.debug("Could not load plugin %s: %s", plugin, e)
 
-    loaded.sort(key=lambda pl: pl.order() or 0)
+    def declared_order(plugin_instance: 'Plugin') -> int:
+        # asking a plugin for its order is a call into the plugin: a plugin that raises, or answers with something that
+        # is not a number, must not cost us the other plugins
+        try:
+            return int(plugin_instance.order() or 0)
+        except Exception as e:
+            logging.debug("Plugin %s has no usable order: %s", plugin_instance, e)
+            return 0
+
+    loaded.sort(key=declared_order)
     return loaded
 
 
